@@ -25,8 +25,11 @@ SITES = [
     _t("dtypeTest2", _U, "get_dtype", ("iftest", 2), _DT, ["precision", "cplx"], {"precision": "String", "cplx": "Bool"}),
     _t("dtypeTest3", _U, "get_dtype", ("iftest", 3), _DT, ["precision", "cplx"], {"precision": "String", "cplx": "Bool"}),
     # `if array.shape != self._shape:` of CachedFFTWConvolution.__call__ (shapes are compared as opaque tokens)
-    _t("cacheShapeChanged", _F, "CachedFFTWConvolution.__call__", ("iftest", 0),
+    _t("cacheShapeChanged", _F, "CachedFFTWConvolution.__call__", ("iftest", "self._shape", 0),
        {"array.shape": "(some shape)", "self._shape": "cached"}, ["shape", "cached"], {"shape": "Nat", "cached": "Option Nat"}),
+    # second dispatch site: FresnelPropagator.propagate routes NumPy arrays under fft=fftw to the cached FFTW convolution
+    _t("propagatorUsesCachedFftw", "abtem/multislice.py", "FresnelPropagator.propagate", ("iftest", "config.get('fft')", 0),
+       {**_CFG, "isinstance(waves._array, np.ndarray)": "isNumpyArray"}, ["cfg", "isNumpyArray"], {"cfg": "String", "isNumpyArray": "Bool"}),
     # `if self._fftw_objects is None:`  — translated through the params_map as an Option test
     dict(gen="FftDispatch", name="defaultFft", table=True, kind="yaml_string", file=_Y, var="fft", modes=["rat"]),
     dict(gen="FftDispatch", name="defaultPrecision", table=True, kind="yaml_string", file=_Y, var="precision", modes=["rat"]),
@@ -41,4 +44,5 @@ FINGERPRINTS = {
     "fft.CachedFFTWConvolution.__init__": (_F, "CachedFFTWConvolution.__init__"),
     "fft.CachedFFTWConvolution.__call__": (_F, "CachedFFTWConvolution.__call__"),
     "utils.get_dtype": (_U, "get_dtype"),
+    "multislice.FresnelPropagator.propagate": ("abtem/multislice.py", "FresnelPropagator.propagate"),
 }
